@@ -74,7 +74,7 @@ def build(targets, log):
         ok, msg = extract_constants.regenerate()
         if not ok:
             return False, "constants extractor: " + msg
-        if not os.path.exists(os.path.join(common.COQ, "Makefile")):
+        if common.write_coqproject() or not os.path.exists(os.path.join(common.COQ, "Makefile")):
             subprocess.run(["coq_makefile", "-f", "_CoqProject", "-o", "Makefile"], cwd=common.COQ,
                            capture_output=True, text=True)
         p = subprocess.run(["timeout", "1500", "make", "-j", str(common.NCPU)] + targets, cwd=common.COQ,
